@@ -5,7 +5,7 @@
 import os, sys
 sys.path.insert(0, os.path.join(os.environ.get("AIOFTP_REPO", "/repo"), "src"))
 OBLIGATION = 'aioftp.server:Server.dispatcher/finally::Server.dispatcher/finally/exit:all-session-tasks-cancelled'
-MODEL = {'restart_offset!12': 0, 'srv_value!29': 0, 'auth_ok!31': True, 'u_cur_home!1': 'Unit("!0!")', 'cwd!2': 'Unit("!1!")', 'pool_size!1': 0, 'block_size!0': 1, 'pool_size!4': 0, 'value!35': 1, 'pool_cnt0': 'K(Int, 3)', 'srv_max!2': 1, 'logged_present!15': True, 'logged_done!16': True, 'current_directory_present!17': True, 'srv_rest!5': 1, 'srv_value!30': 0, 'user_present!13': True, 'loop_closed!34': False, 'pool_rest!4': 'K(Int, 0)', 'passive_port!9': 0, 'pool_cnt!4': 'Store(K(Int, 0), 0, -1)', 'data_connection_present!23': True, 'acquired!11': True, 'user_done!14': True, 'current_directory_done!18': True, 'other_workers!10': True, 'data_connection_done!24': True, 'passive_server_done!22': True, 'passive_server_present!21': True}
+MODEL = {'restart_offset!12': 0, 'srv_value!29': 0, 'auth_ok!31': True, 'u_cur_home!1': 'Unit("!1!")', 'cwd!2': 'Unit("!0!")', 'pool_size!1': 0, 'block_size!0': 1, 'pool_size!4': 0, 'value!35': 1, 'pool_cnt0': 'K(Int, 22)', 'srv_max!2': 1, 'logged_present!15': True, 'logged_done!16': True, 'current_directory_present!17': True, 'srv_rest!5': 1, 'srv_value!30': 0, 'user_present!13': True, 'loop_closed!34': False, 'pool_rest!4': 'K(Int, 0)', 'passive_port!9': 0, 'pool_cnt!4': 'Store(K(Int, 0), 0, -1)', 'data_connection_present!23': True, 'acquired!11': True, 'user_done!14': True, 'current_directory_done!18': True, 'other_workers!10': True, 'data_connection_done!24': True, 'passive_server_done!22': True, 'passive_server_present!21': True}
 SOLVER_NOTE = ''
 
 print("obligation", OBLIGATION, "failed; no concrete failing input could be constructed automatically")
